@@ -209,7 +209,24 @@ type world struct {
 	gcHook     func(run int)
 }
 
+// classified failures (listed findings) are reported a few times only, so that
+// they never trigger hx.Run.Stop.
+var (
+	knownMu    sync.Mutex
+	knownCount = map[string]int{}
+)
+
 func (w *world) fail(class, msg string) {
+	if class != "" {
+		knownMu.Lock()
+		knownCount[class]++
+		n := knownCount[class]
+		knownMu.Unlock()
+		w.r.Count("known:" + class)
+		if n > 3 {
+			return
+		}
+	}
 	w.failures++
 	txt := w.sc.dump()
 	if len(txt) > 6000 {
